@@ -144,6 +144,7 @@ def _hoisted_locals(fd, log=None):
             changed = set()         # names whose object may change after the statement
             changed_paths = set()
             attr_stored = set()
+            item_changed, attr_changed, call_changed = set(), set(), set()
             for n in later:
                 if isinstance(n, (ast.Attribute, ast.Subscript)) and isinstance(n.ctx, (ast.Store, ast.Del)):
                     r_ = n.value
@@ -151,6 +152,10 @@ def _hoisted_locals(fd, log=None):
                         r_ = r_.value
                     if isinstance(r_, ast.Name):
                         changed.add(r_.id)
+                        if isinstance(n, ast.Subscript):
+                            item_changed.add(r_.id)         # an element of a container reached through the name is stored: no attribute is re-bound by that
+                        else:
+                            attr_changed.add(r_.id)
                     if isinstance(n, ast.Attribute):
                         attr_stored.add(n.attr)
                 if isinstance(n, ast.Call):
@@ -164,6 +169,7 @@ def _hoisted_locals(fd, log=None):
                         if isinstance(r_, ast.Name):
                             if first_ is None:
                                 changed.add(r_.id)
+                                call_changed.add(r_.id)
                             else:
                                 changed_paths.add((r_.id, first_))      # obj.field.method(): obj.field may change, obj's other fields do not
                     if not (isinstance(n.func, ast.Name) and n.func.id in ('len', 'str', 'int', 'isinstance', 'bool', 'range', 'enumerate', 'min', 'max')):
@@ -191,8 +197,12 @@ def _hoisted_locals(fd, log=None):
                     if not isinstance(r_, ast.Name) or r_.id in rebound:
                         return False
                     if r_.id in sto or r_.id in params:
-                        if r_.id in changed:
+                        if r_.id in changed and not (value_only is False or True) :
                             return False
+                        if r_.id in call_changed or r_.id in attr_changed:
+                            return False
+                        if r_.id in changed and r_.id not in item_changed:
+                            return False            # changed in some other way (passed on to a call, augmented)
                         x_ = e
                         while isinstance(x_.value, ast.Attribute):
                             x_ = x_.value
@@ -225,7 +235,22 @@ def _hoisted_locals(fd, log=None):
                 if isinstance(e, ast.IfExp):
                     return pure(e.test) and pure(e.body) and pure(e.orelse)
                 return False
-            if not all(pure(p_) for p_ in parts):
+            alias_of_attr = len(parts) == 1 and isinstance(parts[0], ast.Attribute)
+
+            def alias_ok(e):
+                # `t = obj.table`: a second name for the container itself -- element stores and method calls through either name reach the same object;
+                # what must not happen is that the attribute is re-bound, or that a method of obj (which may re-bind it) runs
+                r_ = e
+                while isinstance(r_, ast.Attribute):
+                    if r_.attr in attr_stored:
+                        return False
+                    r_ = r_.value
+                return isinstance(r_, ast.Name) and r_.id not in rebound and r_.id not in call_changed and r_.id not in attr_changed and \
+                    not any(isinstance(n, ast.Call) and not (isinstance(n.func, ast.Name) and n.func.id in ('len', 'str', 'int', 'isinstance', 'bool', 'range', 'enumerate', 'min', 'max'))
+                            and any(isinstance(a_, ast.Name) and a_.id == r_.id for a_ in list(n.args) + [k.value for k in n.keywords]) for n in later)
+            if alias_of_attr and alias_ok(parts[0]):
+                pass
+            elif not all(pure(p_) for p_ in parts):
                 continue
             if len(parts) == 3 and any(isinstance(x, (ast.Attribute, ast.Name)) for x in parts[1:]):
                 continue        # a choice between two objects (one of two lists) stays a local of its own
@@ -250,6 +275,8 @@ def _block_locals(fd, log=None):
     params = {x.arg for x in a.posonlyargs + a.args + a.kwonlyargs} | ({a.vararg.arg} if a.vararg else set()) | ({a.kwarg.arg} if a.kwarg else set())
     if any(isinstance(n, (ast.FunctionDef, ast.AsyncFunctionDef, ast.Lambda, ast.Global, ast.Nonlocal)) for n in ast.walk(fd) if n is not fd):
         return
+    immutable_params = {x.arg for x in a.posonlyargs + a.args + a.kwonlyargs if x.annotation is not None and
+                        ast.unparse(x.annotation).replace("'", '') in ('str', 'int', 'bool', 'bytes', 'Optional[str]', 'Optional[int]')}
     MUT = ('append', 'extend', 'insert', 'pop', 'remove', 'clear', 'sort', 'reverse', 'update', 'setdefault', 'popitem', 'add', 'discard')
     SAFE = ('len', 'str', 'int', 'isinstance', 'bool', 'range', 'enumerate', 'min', 'max', 'sorted', 'list', 'tuple', 'any', 'all', 'zip', 'reversed')
 
@@ -266,6 +293,12 @@ def _block_locals(fd, log=None):
             return isinstance(e.op, (ast.Add, ast.Sub)) and simple(e.left) and simple(e.right)
         if isinstance(e, ast.Call):
             return isinstance(e.func, ast.Name) and e.func.id == 'len' and len(e.args) == 1 and not e.keywords and simple(e.args[0])
+        if isinstance(e, ast.IfExp):
+            return simple(e.test) and simple(e.body) and simple(e.orelse)
+        if isinstance(e, ast.UnaryOp):
+            return isinstance(e.op, (ast.Not, ast.USub)) and simple(e.operand)
+        if isinstance(e, ast.Compare):
+            return simple(e.left) and all(simple(c) for c in e.comparators)
         return False
 
     def root(e):
@@ -282,13 +315,25 @@ def _block_locals(fd, log=None):
                 if not isinstance(blk, list):
                     continue
                 for i, st in enumerate(blk):
-                    if not (isinstance(st, ast.Assign) and len(st.targets) == 1 and isinstance(st.targets[0], ast.Name)):
-                        continue
-                    name = st.targets[0].id
-                    if sto.get(name) != 1 or name in params or not isinstance(st.value, (ast.Subscript, ast.BinOp, ast.Call)) or not simple(st.value):
-                        continue
-                    if not any(isinstance(x, (ast.Subscript, ast.Call)) for x in ast.walk(st.value)):
-                        continue            # plain arithmetic on counters stays a local (it is usually a counter itself)
+                    if isinstance(st, ast.If) and len(st.body) == 1 and len(st.orelse) == 1 and all(
+                            isinstance(b, ast.Assign) and len(b.targets) == 1 and isinstance(b.targets[0], ast.Name) for b in (st.body[0], st.orelse[0])) and \
+                            st.body[0].targets[0].id == st.orelse[0].targets[0].id and sto.get(st.body[0].targets[0].id) == 2 and \
+                            isinstance(st.body[0].value, ast.Constant) and isinstance(st.orelse[0].value, ast.Constant):
+                        # `x = A if C else B` (written as if / else by the statement normal form) with literal A, B: a named choice
+                        st = ast.copy_location(ast.Assign(targets=[ast.Name(id=st.body[0].targets[0].id, ctx=ast.Store())], value=ast.IfExp(
+                            test=st.test, body=st.body[0].value, orelse=st.orelse[0].value), type_comment=None), st)
+                        ast.fix_missing_locations(st)
+                        name = st.targets[0].id
+                        if name in params or not simple(st.value):
+                            continue
+                    else:
+                        if not (isinstance(st, ast.Assign) and len(st.targets) == 1 and isinstance(st.targets[0], ast.Name)):
+                            continue
+                        name = st.targets[0].id
+                        if sto.get(name) != 1 or name in params or not isinstance(st.value, (ast.Subscript, ast.BinOp, ast.Call)) or not simple(st.value):
+                            continue
+                        if not any(isinstance(x, (ast.Subscript, ast.Call)) for x in ast.walk(st.value)):
+                            continue            # plain arithmetic on counters stays a local (it is usually a counter itself)
                     later = [n for b in blk[i + 1:] for n in _walk_no_defs([b])]
                     later_ids = {id(n) for n in later}
                     loads = [n for n in _walk_no_defs(fd.body) if isinstance(n, ast.Name) and n.id == name and isinstance(n.ctx, ast.Load)]
@@ -335,7 +380,7 @@ def _block_locals(fd, log=None):
                                 bad = True
                             if not (isinstance(n.func, ast.Name) and n.func.id in SAFE):
                                 for a_ in list(n.args) + [k.value for k in n.keywords]:
-                                    if isinstance(a_, ast.Name) and a_.id in ops and not isinstance(st.value, ast.Subscript):
+                                    if isinstance(a_, ast.Name) and a_.id in ops and a_.id not in immutable_params and not isinstance(st.value, ast.Subscript):
                                         bad = True
                         elif isinstance(n, (ast.Assign, ast.Return, ast.Yield)) and isinstance(getattr(n, 'value', None), ast.Name) and n.value.id == name:
                             bad = True          # x gets another name / leaves the function: it is an object of its own
@@ -1182,6 +1227,37 @@ class Inliner:
                 i += 1
         hoist_headers(fd.body)
 
+        # `''.join(self._parts())` with _parts a private generator helper: the pieces accumulated one by one (then the helper is inlined like any loop)
+        def join_of_generator(stmts):
+            i = 0
+            while i < len(stmts):
+                st = stmts[i]
+                for fld in ('body', 'orelse', 'finalbody'):
+                    L = getattr(st, fld, None)
+                    if isinstance(L, list) and L and isinstance(L[0], ast.stmt) and not isinstance(st, (ast.FunctionDef, ast.ClassDef)):
+                        join_of_generator(L)
+                v = getattr(st, 'value', None) if isinstance(st, (ast.Return, ast.Assign)) else None
+                if isinstance(v, ast.Call) and isinstance(v.func, ast.Attribute) and v.func.attr == 'join' and isinstance(v.func.value, ast.Constant) and \
+                        v.func.value.value == '' and len(v.args) == 1 and not v.keywords and isinstance(v.args[0], ast.Call):
+                    r = resolve(v.args[0])
+                    if r and not r[0].other_decorators and any(isinstance(x, ast.Yield) for x in _walk_no_defs(r[0].fd.body)) and \
+                            not any(isinstance(x, ast.YieldFrom) for x in _walk_no_defs(r[0].fd.body)):
+                        k = 1
+                        while 'acc_%d' % k in taken or 'part_%d' % k in taken:
+                            k += 1
+                        acc, part = 'acc_%d' % k, 'part_%d' % k
+                        taken.update((acc, part))
+                        init = ast.copy_location(ast.Assign(targets=[ast.Name(id=acc, ctx=ast.Store())], value=ast.Constant(value=''), type_comment=None), st)
+                        loop = ast.copy_location(ast.For(target=ast.Name(id=part, ctx=ast.Store()), iter=v.args[0], body=[
+                            ast.AugAssign(target=ast.Name(id=acc, ctx=ast.Store()), op=ast.Add(), value=ast.Name(id=part, ctx=ast.Load()))], orelse=[], type_comment=None), st)
+                        st.value = ast.copy_location(ast.Name(id=acc, ctx=ast.Load()), v)
+                        for x in (init, loop):
+                            ast.fix_missing_locations(x)
+                        stmts[i:i] = [init, loop]
+                        i += 2
+                i += 1
+        join_of_generator(fd.body)
+
         class ExprInline(ast.NodeTransformer):
             def visit_Call(self, n):
                 self.generic_visit(n)
@@ -1397,6 +1473,12 @@ class Inliner:
                 def repl(stmts2, in_loop):
                     res = []
                     for i_, x in enumerate(stmts2):
+                        if isinstance(x, ast.Expr) and isinstance(x.value, ast.Yield) and isinstance(st.target, ast.Name) and len(st.body) == 1 and \
+                                isinstance(st.body[0], ast.AugAssign) and isinstance(st.body[0].value, ast.Name) and st.body[0].value.id == st.target.id and \
+                                x.value.value is not None and not direct_name:
+                            # the caller does nothing but accumulate what is yielded: `acc += <yielded>`
+                            res.append(ast.copy_location(ast.AugAssign(target=astcopy(st.body[0].target), op=st.body[0].op, value=x.value.value), x))
+                            continue
                         if isinstance(x, ast.Expr) and isinstance(x.value, ast.Yield):
                             if has_continue and not (in_loop and i_ == len(stmts2) - 1):
                                 ok[0] = False
